@@ -56,6 +56,10 @@ func (c CreateProposal) Validate(ctx *action.Context, signedTx action.SignedTx) 
 	if currency.Name != createProposal.InitialFunding.Currency {
 		return false, errors.Wrap(action.ErrInvalidAmount, createProposal.InitialFunding.String())
 	}
+	// the funding goal is a pointer: a payload without it must not be dereferenced later
+	if createProposal.FundingGoal == nil {
+		return false, governance.ErrInvalidFundingGoal
+	}
 
 	//Check if Proposal ID is valid
 	if err = createProposal.ProposalID.Err(); err != nil {
